@@ -7,8 +7,6 @@ xl/workbook.xml (first <sheet r:id=..>) and xl/_rels/workbook.xml.rels; the part
 import io, re, zipfile
 
 _A = "ABCDEFGHIJKLMNOPQRSTUVWXYZ"
-_cell = re.compile(rb'<c\b[^>]*?\br="(\$?)([A-Za-z]{1,3})(\$?)([0-9]{1,7})"')
-_row = re.compile(rb'<row\b[^>]*?\br="([0-9]{1,7})"')
 _tag = re.compile(rb'<(row|c)\b[^>]*?\br="([^"]*)"')
 
 
